@@ -151,7 +151,7 @@ def glq_contract():
             out.append(("nodes_are_gauss_legendre_%dpt" % (2 * lg), okx, "P"))
             out.append(("weights_are_gauss_legendre_%dpt" % (2 * lg), okw, "P"))
         else:
-            out.append(("rule_size_concrete", False, "P"))
+            out.append(("rule_size_concrete", False, "S"))
         return out
     return Contract(MOD, "gauss_legendre_quad", make_args, ensures=ensures, definedness="P")
 
@@ -224,7 +224,7 @@ def bvn_contract(regime):
         if regime == "low":
             return out
         if "bvn_mid" not in g:
-            return out + [("final_combination_reached", False, "P")]
+            return out + [("final_combination_reached", False, "S")]
         mid = g["bvn_mid"]((k,))
         dh, dk = g["dh_f"]((k,)), g["dk_f"]((k,))
         h0, k0 = std(a, k)
